@@ -6,6 +6,8 @@
 package smt
 
 import (
+	"crypto/sha256"
+	"encoding/binary"
 	"fmt"
 	"math"
 	"math/bits"
@@ -74,6 +76,7 @@ type Term struct {
 	Val    uint64 // OConst: raw bits (truncated to W) / 0,1 for bool / IEEE bits for f64
 	Name   string // OVar
 	ID     int
+	H      [2]uint64 // structural hash (independent of the Ctx): keys the cross-path query cache
 }
 
 func (t *Term) IsConst() bool { return t.Op == OConst }
@@ -115,6 +118,17 @@ func (c *Ctx) mk(t *Term) *Term {
 		return x
 	}
 	t.ID = len(c.terms)
+	{
+		hb := make([]byte, 0, 64+16*len(t.Args))
+		hb = append(hb, fmt.Sprintf("%d/%d/%d/%v/%d/%s", t.Op, t.K, t.W, t.Signed, t.Val, t.Name)...)
+		for _, a := range t.Args {
+			hb = binary.LittleEndian.AppendUint64(hb, a.H[0])
+			hb = binary.LittleEndian.AppendUint64(hb, a.H[1])
+		}
+		sum := sha256.Sum256(hb)
+		t.H[0] = binary.LittleEndian.Uint64(sum[0:8])
+		t.H[1] = binary.LittleEndian.Uint64(sum[8:16])
+	}
 	c.terms = append(c.terms, t)
 	c.tab[k] = t
 	if t.Op == OVar {
